@@ -196,13 +196,9 @@ func traceSources(v ssa.Value) []ssa.Value {
 			walk(x.X)
 		case *ssa.UnOp:
 			if x.Op.String() == "*" {
-				if a, ok := x.X.(*ssa.Alloc); ok {
-					if refs := a.Referrers(); refs != nil {
-						for _, r := range *refs {
-							if st, ok := r.(*ssa.Store); ok && st.Addr == a {
-								walk(st.Val)
-							}
-						}
+				if cell := resolveCell(x.X); cell != nil {
+					for _, sv := range cellStores(cell) {
+						walk(sv)
 					}
 					return
 				}
